@@ -11,7 +11,7 @@ run_demo() { # $1 = A|B
   g++ -std=c++17 -O1 -w -I $WT/include $D/demo.cpp $WT/src/options/*.cpp $WT/src/env/get.cpp -o /tmp/demo_${K}_$1 -pthread -ldl >/dev/null 2>&1 || return 99
   timeout 120 /tmp/demo_${K}_$1 >/dev/null 2>&1; return $?
 }
-for V in A B; do
+for V in ${VARIANTS:-A B}; do
   git -C $WT checkout -q -- . ; 
   if ! git -C $WT apply $WT/mutants/$V/patch.diff 2>/dev/null; then echo "$K-$V: PATCH-DOES-NOT-APPLY"; continue; fi
   if ! cmake --build $WT/_build >/dev/null 2>&1; then echo "$K-$V: BUILD-FAILS"; git -C $WT checkout -q -- .; continue; fi
